@@ -674,7 +674,9 @@ RE_POINT = ['uncached-before', 'uncached-after', 'lazy-required', 'providedBy-de
             'value-destructor', 'name-hash', 'required-key-eq', 'unhashable-provided-error-path',
             'super-subclass-computed-self', 'uncached-raises-error-path', 'generation-property',
             'cached-factory-destructor']
-RE_MUT = ['register-more-specific', 'unregister', 'subscribe', 'changed-only', 'rebase', 'register-then-lookup-other-key']
+RE_MUT = ['register-more-specific', 'unregister', 'subscribe', 'changed-only', 'rebase', 'register-then-lookup-other-key',
+          # no mutation at all: the interrupting code only performs single-adapter lookups for *another* required specification
+          'only-looks-up-another-specification']
 RE_WARM = ['cold', 'warm-other-key', 'warm-same-key-then-changed']
 
 
@@ -844,6 +846,10 @@ def run_reent(program):
         w['s_new'] = _Fac('s-new')
         reg.register([w['IR0']], w['P'], '', w['f_old'])
         reg.register([w['IR0'], w['IR0']], w['P'], '', w['f_old'])
+        w['IZ'] = InterfaceClass('IZ', (Interface,), {}, __module__=mod)
+        w['f_z'] = _Fac('z')
+        w['zob'] = implementer(w['IZ'])(type('Z', (object,), {}))()
+        reg.register([w['IZ']], w['P'], '', w['f_z'])
         reg.register([w['IR0']], w['Q'], '', w['f_named'])
         reg.subscribe([w['IR0']], w['P'], w['s_old'])
         other.register([w['IR0']], w['P'], 'n', w['f_base'])
@@ -863,6 +869,10 @@ def run_reent(program):
             reg._v_lookup.changed(None)
         elif mu == 'rebase':
             reg.__bases__ = (w['other'],) if 'gen' not in w else (w['gen'], w['other'])
+        elif mu == 'only-looks-up-another-specification':
+            reg.lookup1(w['IZ'], w['P'], '')
+            reg.queryAdapter(w['zob'], w['P'], '')
+            reg.lookup([w['IZ']], w['P'], '')
         else:
             reg.register([w['IR1']], w['P'], '', w['f_new'])
             reg.lookup([w['IR0']], w['Q'], '')            # a re-entrant lookup of another key fills the fresh caches
